@@ -80,4 +80,17 @@ def judgeRedactF (_payload impl : String) : Verdict :=
   | _ => { corr := false, implSpec := false, modelSpec := true, tags := [], nontrivial := true, cls := "no-observation",
            model := "-", spec := "the record redact(P) alone returns" }
 
+/-- kfl.shared (C18): a prepared query shared by goroutines that evaluate it on different records: no result may
+    differ from that of a fresh copy evaluated on the record alone -/
+def judgeShared (_payload impl : String) : Verdict :=
+  match Sx.parse impl with
+  | some (.list [.atom "shared", .list [.atom "evals", n], .list [.atom "differ", d], .list [.atom "errors", _]]) =>
+    let ok := d.toStr == "0"
+    { corr := ok, implSpec := ok, modelSpec := true, tags := [], nontrivial := n.toStr != "0", cls := "shared",
+      model := "differ 0", spec := "every concurrent evaluation equals that of a fresh copy on the record alone" }
+  | some (.list [.atom "shared", .atom "prepare-error"]) =>
+    { corr := true, implSpec := true, modelSpec := true, tags := [], nontrivial := false, cls := "prepare-error", model := "-", spec := "-" }
+  | _ => { corr := false, implSpec := false, modelSpec := true, tags := [], nontrivial := true, cls := "no-observation",
+           model := "-", spec := "every concurrent evaluation equals that of a fresh copy" }
+
 end KsVerif.Kfl.Macro
